@@ -72,6 +72,7 @@ class C19(Prop):
     )
     TRUSTED = [
         "Python dict semantics (a key is found iff hashes are equal and == holds) are modelled by key_match",
+        "harness/hash_extract.py: static reading that every hand-written __hash__ is `return hash(<declared fields of self>)`",
         "string/field equality is mapped to token equality by the harness (canonical JSON of each declared field)",
     ]
 
@@ -91,6 +92,16 @@ class C19(Prop):
             t = rng.choice(vocab) if vocab and rng.random() < 0.6 else rng.randrange(len(pool))
             ptags.append([t, Fraction(rng.randint(0, 16), 16)])
         return {"kind": "encode", "vocab": list(vocab), "tags": tags, "ptags": ptags}
+
+    def setup(self, tier):
+        # static, fail-closed reading of the hand-written __hash__ methods: each must be hash(<declared fields only>)
+        from .. import hash_extract as H
+        from ..core import REPO_SRC
+
+        try:
+            self.static = H.hash_problems(REPO_SRC)
+        except Exception as e:
+            self.static = [f"cannot read the __hash__ methods: {type(e).__name__}: {e}"]
 
     def _hash_case(self, rng):
         cls = rng.choice(["Term", "Tag", "Feature", "Note", "SoundEvent", "SoundEventAnnotation", "SoundEventPrediction", "ClipPrediction"])
@@ -293,6 +304,8 @@ class C19(Prop):
     def agree(self, c, o):
         if o["res"][0] != "ok":
             return "false"
+        if c["kind"] != "encode" and getattr(self, "static", None):
+            return "false"  # a __hash__ that is not a function of the declared fields: the congruence argument no longer applies
         if c["kind"] == "encode":
             vocab = "(" + listlit(o["vocab_tok"], self._tag) + " : list tag)"
             pool = o["pool_tok"]
